@@ -177,7 +177,7 @@ pub struct JobQueue { pub core: Mutex<JobQueueCore> }
 
 // ------------------------------------------------------------------ schedule (VecDeque<Arc<JobQueue>>)
 
-pub tracked struct SCtx { pub ghost appended: nat }
+pub tracked struct SCtx { pub ghost appended: nat, pub ghost left_empty: bool }   // left_empty: the last section on the schedule left it empty
 /// wake log: which wakers this thread has woken, and which waker it installed in a DrainWaker
 pub tracked struct WCtx { pub ghost woken: Seq<Waker>, pub ghost installed: Option<Waker> }
 pub tracked struct G { pub tracked q: QCtx, pub tracked s: SCtx, pub tracked w: WCtx }
@@ -190,6 +190,7 @@ impl Mutex<Schedule> {
         ensures
             r is Ok,
             final(ctx).appended == old(ctx).appended + (if final(r->Ok_0)@.len() == (r->Ok_0)@.len() + 1 && final(r->Ok_0)@.drop_last() =~= (r->Ok_0)@ { 1nat } else { 0nat }),
+            final(ctx).left_empty == (final(r->Ok_0)@.len() == 0),
     { unimplemented!() }
 }
 
